@@ -39,12 +39,23 @@ type readObs struct {
 	Retries  []int64 // setRetry values are not observable directly; left empty
 }
 
+func isWrapEOFChain(err error) bool {
+	for e := err; e != nil; e = errors.Unwrap(e) {
+		if e == errWrapEOF {
+			return true
+		}
+	}
+	return false
+}
+
 func classifyEnd(err error) string {
 	switch {
 	case err == nil:
 		return "clean"
 	case errors.Is(err, sse.ErrUnexpectedEOF):
 		return "ueof"
+	case err == errWrapEOF || errors.Is(err, errWrapEOF) && err != io.EOF && errors.Unwrap(err) != nil && isWrapEOFChain(err):
+		return "rerr_wrapeof"
 	case errors.Is(err, io.EOF):
 		return "clean"
 	default:
@@ -225,7 +236,17 @@ func fmtEvents(ev []obsEvent) []string {
 }
 
 // segName describes a segmentation for witnesses.
+// wrapEOFErr is a read failure that wraps io.EOF: a failed read, not a clean end of the stream.
+type wrapEOFErr struct{}
+
+func (wrapEOFErr) Error() string { return "injected read failure wrapping EOF" }
+func (wrapEOFErr) Unwrap() error { return io.EOF }
+
+var errWrapEOF error = wrapEOFErr{}
+
 type segSpec struct {
+	// EndWrapEOF: the reader ends with a read error that wraps io.EOF instead of a clean EOF
+	EndWrapEOF  bool   `json:"end_wraps_eof,omitempty"`
 	Kind        string `json:"kind"`
 	Cuts        []int  `json:"cuts,omitempty"`
 	EOFWithLast bool   `json:"eof_with_last,omitempty"`
@@ -238,7 +259,11 @@ func (s segSpec) reader(data string) *mon.ChunkReader {
 	case "bytes":
 		cuts = mon.EveryByte(len(data))
 	}
-	return &mon.ChunkReader{Data: data, Cuts: cuts, EOFWithLast: s.EOFWithLast, ZeroEvery: s.ZeroEvery}
+	cr := &mon.ChunkReader{Data: data, Cuts: cuts, EOFWithLast: s.EOFWithLast, ZeroEvery: s.ZeroEvery}
+	if s.EndWrapEOF {
+		cr.EndErr = errWrapEOF
+	}
+	return cr
 }
 
 var _ = time.Now
